@@ -130,6 +130,7 @@ class Extractor:
         self.reentries = {}       # same-object re-acquisitions (comment only)
         self.assumptions = {}     # text -> set(roles)
         self.blocking = {}        # text -> set(roles)
+        self.joins = {}           # (receiver text, kind, where) -> {'held': set(lock names), 'roles': set(joining roles)}
         self.unguarded = {}       # (text, held) -> set(roles): queue operations that can wait for another thread
         self.accesses = {}        # (class, attr, 'r'|'w') -> {'locked': n, 'unlocked': set(where)}: field accesses of lock-owning classes
         self.init_only = {}       # (class, attr) -> True while every write seen is inside __init__
@@ -920,6 +921,10 @@ class Extractor:
                 for (tn, mm) in sorted(BLOCKING):
                     if mm == m and tn.split('.')[-1] in rt[1].replace('[', '.').split('.'):
                         self.note_blocking(ctx, f"{tn}.{m}()", e)
+                        if m == 'join':
+                            j = self.joins.setdefault((ast.unparse(f.value), tn, self.loc(ctx, e)), {'held': set(), 'roles': set()})
+                            j['held'] |= {l for l, _ in ctx['held']}
+                            j['roles'].add(self.role)
                         if tn == 'Queue':
                             self.note_queue_wait(ctx, m, e)
                 return T_ext(rt[1] + '.' + m)
@@ -1058,7 +1063,36 @@ def extract(repo: Path):
     for (H, x), info in ex.entries.items():
         entries.append((sorted(ids[h] for h in H), ids[x], sorted(info['roles']), info['chain']))
     entries.sort(key=lambda t: (t[1], t[0]))
+    # who is waited for at each join: `self.<attr>.join()` with `<attr> = Thread(target=self.<m>)` somewhere in the class ->
+    # the role whose entry point is <Class>.<m>; a pool's join waits for the workers
+    entry_role = {ep: role for role, eps in ROLES for ep in eps}
+    thread_target = {}
+    for cname, ci in ex.classes.items():
+        for node in ast.walk(ci.node):
+            if isinstance(node, (ast.Assign, ast.AnnAssign)) and isinstance(node.value, ast.Call) \
+                    and ast.unparse(node.value.func).split('.')[-1] == 'Thread':
+                tgt = node.target if isinstance(node, ast.AnnAssign) else node.targets[0]
+                for kw in node.value.keywords:
+                    if kw.arg == 'target' and isinstance(tgt, ast.Attribute):
+                        thread_target[ast.unparse(tgt)] = (cname, ast.unparse(kw.value).split('.')[-1])
+    join_holds = []
+    for (recv, kind, where), j in sorted(ex.joins.items()):
+        if kind in ('Pool', 'ThreadPool'):
+            target = 'worker'
+        elif recv in thread_target:
+            cname, m = thread_target[recv]
+            cands = [r for ep, r in entry_role.items() if ep.split('.')[-1] == m and (ep.split('.')[0] == cname or cname in ep)]
+            if not cands:
+                raise TieBroken(f"{where}: `{recv}.join()` waits for a thread running {cname}.{m}, which is no entry point of a thread role")
+            target = cands[0]
+        else:
+            raise TieBroken(f"{where}: cannot tell which thread `{recv}.join()` waits for")
+        for h in sorted(j['held']):
+            join_holds.append((ids[h], target, f"{recv}.join() [{where}] by {'+'.join(sorted(j['roles']))}"))
+    role_acqs = sorted({(r, x) for (_H, x, roles, _c) in entries for r in roles})
     return {
+        'join_holds': join_holds,
+        'role_acqs': role_acqs,
         'locks': [(ids[n], n, locks[n]) for n in names],
         'gate': ids[GATE],
         'entries': entries,
@@ -1127,6 +1161,14 @@ def render(g):
              and any(r != 'controller' for r in roles)]
     L.append("def joinWaits : List (String × String) := [" + ", ".join(
         '("%s", "%s")' % (a.replace('"', "'"), ' '.join(r for r in roles if r != 'controller')) for a, roles in joinw) + "]")
+    L.append("")
+    L.append("/-- a thread (of ANY role, the application's controller thread included) waits for another thread to END while it holds a")
+    L.append("lock: (lock held, role of the thread waited for, where).  If that thread ever needs the lock, neither gets on. -/")
+    L.append("def joinHolds : List (Nat × String × String) := [" + ", ".join(
+        '(%d, "%s", "%s")' % (l, r, w.replace('"', "'")) for l, r, w in g['join_holds']) + "]")
+    L.append("")
+    L.append("/-- (thread role, lock class it acquires somewhere), from `acqs`. -/")
+    L.append("def roleAcqs : List (String × Nat) := [" + ", ".join('("%s", %d)' % (r, x) for r, x in g['role_acqs']) + "]")
     L.append("")
     L.append("/-- fields of lock-owning classes that are written after construction and, on some path from a thread role's entry")
     L.append("point, read or written WITHOUT (one of) the owning object's own lock(s) held: (class, field, r/w, where).  The")
